@@ -347,6 +347,26 @@ def cstr(s):
     return '"' + s.replace('"', '""') + '"'
 
 
+def cbytes(s):
+    """Coq string term for arbitrary bytes (str with surrogateescape or bytes)."""
+    if isinstance(s, str):
+        s = s.encode('utf-8', 'surrogateescape')
+    parts, cur = [], []
+    for b in s:
+        if b in (9, 10) or 32 <= b <= 126:
+            cur.append('""' if b == 34 else chr(b))
+        else:
+            if cur:
+                parts.append('"%s"' % ''.join(cur))
+                cur = []
+            parts.append('(B %d)' % b)
+    if cur or not parts:
+        parts.append('"%s"' % ''.join(cur))
+    if len(parts) == 1:
+        return parts[0]
+    return '(' + ' ++ '.join(parts) + ')'
+
+
 def parse_verdict_list(out, expected_len=None):
     v = parse_nat_list(out)
     if expected_len is not None and len(v) != expected_len:
